@@ -520,6 +520,24 @@ func runC11(r *Run) {
 				okSet = true
 			}
 		})
+		// ... of the value it was given
+		eachInstr(m.SetRTO, func(b *ssa.BasicBlock, i int, in ssa.Instruction) {
+			if n, isAt := atomicOpOnField(in, m.RTO); isAt && n == "StoreInt64" {
+				args := callArgs(in)
+				given := false
+				if len(args) == 2 {
+					v := stripConvs(args[1])
+					for _, pa := range m.SetRTO.Params[1:] {
+						if v == ssa.Value(pa) {
+							given = true
+						}
+					}
+				}
+				if !given {
+					rt.Violation(m.SetRTO, instrPos(in), "SetRTO does not store its argument", "the RTO of transactions started later is not the one the caller set")
+				}
+			}
+		})
 		rt.Instance("SetRTO|atomic store", true, nil)
 		if !okSet {
 			rt.Violation(m.SetRTO, m.SetRTO.Pos(), "SetRTO", "SetRTO must store the RTO atomically (Start loads it concurrently)")
